@@ -1,5 +1,5 @@
 CONSTANTS
-  Files = {"a.py", "docs/c.md"}
+  Files = {"a.py", "src/b.c", "docs/c.md"}
   Lics = {"MIT", "0BSD", "LicenseRef-x"}
   GlobFiles = {"docs/c.md"}
   GlobLic = "0BSD"
